@@ -63,6 +63,10 @@ class Verifier(ExecMixin, Engine):
         self.emit(ctx, st, 'cover', 'requires', B(True), expect_sat=True, note='requires satisfiable')
         pre = st.fork()
         ctx.pre_state = pre
+        for pname, gname in getattr(c, 'counts', ()):
+            obj = st.locals[pname]
+            srt = self.ghost_sorts[gname]
+            self.set_ghost(st, gname, srt, obj.z, self.get_ghost(st, gname, srt, obj.z) + 1)
         # contracts speak about the values the parameters had on entry (the body may rebind them)
         entry_bound = dict(ctx.bound)
         for n in c.params:
